@@ -2816,7 +2816,7 @@ def c20(rep, tier, seed, wd, replay):
             # state-changing messages this daemon had accepted before (account creation): needed to replay a crash that
             # depends on them
             prelude = [[m2, c2, p2.hex()] for (m2, c2, p2, t2), o2 in zip(chunk[:dead_at], out[:dead_at])
-                       if m2.endswith("/Generate") and o2.startswith("resp")][-5:]
+                       if (m2.endswith("/Generate") and o2.startswith("resp")) or (t2 == tag and tag == "repeated-bad-unlock")][-12:]
             rep.violation("daemon-crash-" + tag, "the daemon stopped answering after this message (%s)" % (reason[0] if reason else "no longer alive"),
                           {"method": m, "client": c, "payload_hex": pl.hex(), "prelude": prelude, "stderr": stderr_tail[-1200:]})
             found = True
